@@ -81,6 +81,10 @@ func (vs *ValidatorStore) CheckMaliciousValidators(es *evidence.EvidenceStore, g
 				if plusDiff > vs.lastHeight {
 					continue
 				}
+				// a validator that is already frozen keeps its record: a guilty verdict is not downgraded to missed votes
+				if frozen, ok := vs.maliciousValidators[baddr.String()]; ok && frozen.IsFrozen() {
+					continue
+				}
 				logger.Detailf("Found validator with missed required votes: %s\n", validator.Address)
 				lvh, err := es.CreateSuspiciousValidator(
 					baddr, evidence.MISSED_REQUIRED_VOTES,
